@@ -385,13 +385,22 @@ pub fn generate(ctx: &mut Ctx) {
     // nesting depth 1 .. 10^5 (Zinc: model + implementation; JSON: implementation)
     let depths: &[usize] = if ctx.quick() { &[1, 10, 63, 64, 65, 100, 1000, 100_000] } else { &[1, 2, 10, 32, 63, 64, 65, 66, 100, 128, 129, 1000, 10_000, 100_000] };
     for &d in depths {
-        for (open, close) in [("[", "]"), ("{a:", "}"), ("<<\nver:\"3.0\"\na\n", "\n>>"), ("[{a:", "}]")] {
+        for (open, close) in [
+            ("[", "]"),
+            ("{a:", "}"),
+            ("<<\nver:\"3.0\"\na\n", "\n>>"),
+            ("[{a:", "}]"),
+            // grids nested through grid meta / column meta: no bracket opens these levels
+            ("ver:\"3.0\" a:", ""),
+            ("ver:\"3.0\"\nc m:", ""),
+            ("ver:\"3.0\" a:[", "]"),
+        ] {
             let mut s = String::new();
             for _ in 0..d {
                 s.push_str(open);
             }
             let unterminated = s.clone();
-            s.push('1');
+            s.push_str(if open.starts_with("ver") { "ver:\"3.0\"\nb\n1\n" } else { "1" });
             for _ in 0..d {
                 s.push_str(close);
             }
